@@ -217,6 +217,28 @@ def wrapTrack (track4 track8 : Rat) : Rat :=
   let t := remEuclid t (WRAP_FULL : Rat)
   if t ≥ (WRAP_CORNER : Rat) then (WRAP_CORNER_VALUE : Rat) else t
 
+/-! #### why the corner arm exists: `rem_euclid` with its one rounding (audit-c H5)
+
+On exact numbers `remEuclid t 360 < 360`, so the arm `if track >= 360. { 0. }` of `wrapTrack` is dead
+code (`Props/C15.wrap_arm_dead_exact`).  In `f64` it is not: std computes
+`let r = self % rhs; if r < 0.0 { r + rhs } else { r }`; `%` (fmod) is exact, but the addition is
+rounded, and for a tiny negative `r` the sum `r + 360.0` rounds to `360.0`.  The three definitions
+below make that one rounding a parameter `rnd` (they are not used by `fromRecord`, whose numbers
+stay exact). -/
+
+/-- `x % m` for `m > 0` (truncated remainder, sign of `x`; exact in IEEE arithmetic) -/
+def fmodPos (x m : Rat) : Rat := if 0 ≤ x then remEuclid x m else -(remEuclid (-x) m)
+
+/-- `x.rem_euclid(m)` with the addition rounded by `rnd` -/
+def remEuclidR (rnd : Rat → Rat) (x m : Rat) : Rat :=
+  let r := fmodPos x m
+  if r < 0 then rnd (r + m) else r
+
+/-- the last two statements of `decode_track` on a rounded `rem_euclid` -/
+def wrapR (rnd : Rat → Rat) (t : Rat) : Rat :=
+  let t := remEuclidR rnd t (WRAP_FULL : Rat)
+  if t ≥ (WRAP_CORNER : Rat) then (WRAP_CORNER_VALUE : Rat) else t
+
 /-- `decode_track(ns, ew, v)`; `ns[0]`, `ew[0]`, `ns[1]`, `ew[1]` are checked indices -/
 def decodeTrack (F : FloatOps) (ns ew : List Int) (v : Rat) : Outcome Rat :=
   Outcome.bind (idx ns 0) fun n0 =>
